@@ -25,6 +25,7 @@ structure SendRec where
   tag : Nat
   sizeLo : Nat
   sizeHi : Nat
+  need : Nat
   halves : Nat
   serLo : Option Nat
   serHi : Option Nat
@@ -113,7 +114,7 @@ def alternatives (c : Cfg) (s : SendRec) (observed : String) (big : Int) : List 
   let derrs : List Bool := [false, true]
   let n0s : List Nat := [0, c.rMaxData + 1, c.rMaxItem + 1].filter (· ≤ c.sMaxItem)
   sizes.flatMap fun (sz, sf) =>
-    let it : Item := { id := s.tag, size := sz, halves := s.halves, serFail := sf, deFail := s.defail }
+    let it : Item := { id := s.tag, size := sz, need := min s.need sz, halves := s.halves, serFail := sf, deFail := s.defail }
     let aborts : List Abort :=
       if observed == "cancelled" then
         ([0, c.rMaxData + 1, c.rMaxItem + 1].filter (· < sz)).map Abort.inData ++ (if s.halves > 0 then [.beforePorts] else [])
@@ -129,7 +130,7 @@ def alternatives (c : Cfg) (s : SendRec) (observed : String) (big : Int) : List 
       if resName x.2.2 == observed then [(x.1, outs)] else []
 
 def natural (c : Cfg) (s : SendRec) (big : Int) : String :=
-  let it : Item := { id := s.tag, size := s.sizeLo, halves := s.halves, serFail := s.serLo, deFail := s.defail }
+  let it : Item := { id := s.tag, size := s.sizeLo, need := min s.need s.sizeLo, halves := s.halves, serFail := s.serLo, deFail := s.defail }
   resName (sendItem c big it .none false 0).2.2
 
 /-- replay a list of (send, observed result) on the model; `none` = the model cannot produce it -/
@@ -198,7 +199,7 @@ def checkC04 (c : CaseSt) : List String := Id.run do
           let h := handleOf c s
           let sendErr := fun (x : String) => x.startsWith "closed" || x == "chmux"
           let wholeStream := !isLocal c s.sender && s.sizeLo > c.cfg.rMaxData &&
-            ((s.serLo == some s.sizeLo && (s.res == "ser" || h == "ser")) || s.res == "cancelled" || sendErr s.res || sendErr h)
+            (((s.serLo.getD 0) ≥ s.need && s.serLo.isSome && (s.res == "ser" || h == "ser")) || s.res == "cancelled" || sendErr s.res || sendErr h)
           if wholeStream then
             fails := fails ++ [s!"FB1 value tag {t} was delivered although its send failed (res={s.res} handle={h}): the abandoned chunk stream already carried the complete encoding and the receiver does not check the end of a streamed message"]
           else
@@ -443,6 +444,7 @@ def stepLine (a : DAcc) (_n : Nat) (line : String) : IO DAcc := do
   | "send" :: i :: rest =>
     let m := kvs rest
     let s : SendRec := { sender := i.toNat?.getD 0, tag := getNat m "tag", sizeLo := getNat m "size", sizeHi := getNat m "sizehi",
+                         need := if getKV m "need" == "" then getNat m "size" else getNat m "need",
                          halves := getNat m "halves", serLo := parseOptNat (getKV m "serfail"), serHi := parseOptNat (getKV m "serfailhi"),
                          defail := getKV m "defail" == "1", cancel := parseOptNat (getKV m "cancel"), data := getKV m "data",
                          res := getKV m "res", kv := m }
